@@ -170,6 +170,18 @@ func c20Case(r *rand.Rand) Case {
 	if dom.VerifDump(d) != after {
 		fail = append(fail, "Serialize or a list accessor modified the representation of the document")
 	}
+	// a clone is a private copy: editing it (at any depth, lists inside lists included) is not a write to d
+	if pn := guard(func() {
+		cl := d.Clone()
+		for j := 0; j < 8; j++ {
+			randomEdit(r, cl)
+		}
+	}); pn != "" {
+		fail = append(fail, "panic while editing a clone: "+pn)
+	}
+	if dom.VerifDump(d) != after {
+		fail = append(fail, "editing a clone modified the representation of the original document")
+	}
 	return Case{Kind: "read", Desc: map[string]any{"route": route, "read": rdop.desc, "doc": nodeToAny(d), "unchanged": unchanged},
 		Coq: "CRead " + mn + " (" + rdop.coq + ") (" + obs + ") " + gBool(unchanged), Fail: fail,
 		Nontrivial: strings.Contains(mn, "MCon false") || strings.Contains(mn, "MList false")}
@@ -180,9 +192,20 @@ func c20Overlay(r *rand.Rand) Case {
 	o := defaultOpts()
 	o.keys = []string{"a", "b", "c"}
 	ov := dom.NewOverlayDocument()
+	var prev map[string]any
 	for i, n := 0, 1+r.Intn(3); i < n; i++ {
 		m := genDoc(r, o)
+		if prev != nil && r.Intn(2) == 0 { // a later layer overriding parts of the previous one: shared structure at every depth
+			m = deepCopy(prev).(map[string]any)
+			for j := 0; j < 3; j++ {
+				if mm, ok := mutateVal(r, m, o).(map[string]any); ok {
+					m = mm
+				}
+			}
+		}
 		m["e"] = map[string]any{}
+		m["deep"] = map[string]any{"x": map[string]any{"y": map[string]any{fmt.Sprintf("k%d", i): i, "shared": i}, "l": []any{[]any{i, 2}, []any{3}}}}
+		prev = m
 		ov.Add(fmt.Sprintf("l%d", i), dom.Builder().FromMap(m))
 	}
 	before := dom.VerifDump(ov)
@@ -199,6 +222,27 @@ func c20Overlay(r *rand.Rand) Case {
 		{"LayerNames", func() { _ = ov.LayerNames() }},
 		{"Walk", func() { ov.Walk(func(l, p string, parent, n dom.Node) bool { return true }) }},
 		{"Serialize", func() { var b bytes.Buffer; _ = ov.Serialize(&b, dom.DefaultNodeEncoderFn, dom.DefaultYamlEncoder) }},
+		{"Merged+Serialize", func() {
+			_ = ov.Merged()
+			var b bytes.Buffer
+			_ = ov.Serialize(&b, dom.DefaultNodeEncoderFn, dom.DefaultJsonEncoder)
+			_ = ov.Merged()
+		}},
+		{"edit-a-snapshot", func() {
+			// what Layers() and Clone() hand out is a copy: editing it must not reach the overlay
+			for _, l := range ov.Layers() {
+				if cl, ok := l.Clone().(dom.ContainerBuilder); ok {
+					for j := 0; j < 6; j++ {
+						randomEdit(r, cl)
+					}
+				}
+				if lb, ok := l.(dom.ContainerBuilder); ok {
+					for j := 0; j < 6; j++ {
+						randomEdit(r, lb)
+					}
+				}
+			}
+		}},
 		{"merge-twice", func() {
 			// a merged view must not share writable state with its inputs: merging the same base with
 			// two different overrides must leave the first result as it was
@@ -293,7 +337,7 @@ func c20Concurrent(seed int64, tier string) ([]string, map[string]any) {
 func init() {
 	register(&Prop{
 		ID:   "C20",
-		Rule: "documents with empty containers and empty lists at any depth along 7 construction routes (builder, FromMap, loaded from YAML, merged, cloned, sealed, empty sealed) x one read-only call (Child, Children, Lookup, Flatten, Search, AsMap, Equals, SameAs, Clone; then Serialize and list accessors): the generic representation dump (hook dom.VerifDump: every field, nil-ness/len/cap of maps and slices) must be identical before and after, and the returned value equal to the content-only model; overlay-read: Lookup (incl. unknown layer), LookupAny, Search, Merged (both strategies), Layers, LayerNames, Walk, Serialize leave the overlay's dump unchanged. Extra: 16 goroutines x random read sequences on one shared document + overlay views, observations equal to single-threaded ones; the same harness is built with -race and must produce no race report. Non-trivial: document has an unallocated (nil) map or slice. Distinct by Gallina term.",
+		Rule: "documents with empty containers and empty lists at any depth along 7 construction routes (builder, FromMap, loaded from YAML, merged, cloned, sealed, empty sealed) x one read-only call (Child, Children, Lookup, Flatten, Search, AsMap, Equals, SameAs, Clone; then Serialize and list accessors, then 8 random edits of a Clone()): the generic representation dump (hook dom.VerifDump: every field, nil-ness/len/cap of maps and slices) must be identical before and after, and the returned value equal to the content-only model; overlay-read: Lookup (incl. unknown layer), LookupAny, Search, Merged (both strategies), Layers, LayerNames, Walk, Serialize, and random edits of Layers() snapshots and their clones leave the overlay's dump unchanged (layers derived from each other, so they share structure at every depth, plus a fixed three-level overlap with lists in lists). Extra: 16 goroutines x random read sequences on one shared document + overlay views, observations equal to single-threaded ones; the same harness is built with -race and must produce no race report. Non-trivial: document has an unallocated (nil) map or slice. Distinct by Gallina term.",
 		Gen: func(r *rand.Rand, tier string, idx int) Case {
 			if idx%5 == 4 {
 				return c20Overlay(r)
